@@ -60,7 +60,7 @@ def gen_rpms_doc(rng, R, version=None):
         for a in arches:
             tab = {}
             for base in rng.sample(NEVRAS, rng.randint(1, 3)):
-                srpm = base + ".src" + rng.choice(["", ".rpm"])
+                srpm = base + rng.choice([".src", ".src", ".nosrc"]) + rng.choice(["", ".rpm"])
                 rp = {}
                 for sub, ty in rng.sample([("", "package"), ("-debuginfo", "debug"), ("-libs", "package"), ("-doc", "binary")], rng.randint(1, 3)):
                     name, evr = base.rsplit("-", 2)[0], "-".join(base.rsplit("-", 2)[1:])
